@@ -3,7 +3,11 @@
 Only data is taken: default arguments, the literals compared against (span > 0,
 depth > 0, min_mapq > 0), the base of the logarithm, the placeholder gene name and
 the `else 0` of the count algorithm's depth.  NULL_LOG2_COVERAGE comes from
-Gen/Params.v."""
+Gen/Params.v.  For the text layer of the pileup path: the column-name lists, the tab
+thresholds and the filler-name rule of detect_bedcov_columns, the characters it searches
+for, and the keywords of bedcov()'s pd.read_csv call (separator, string dtypes,
+keep_default_na, quoting -- absent = pandas' default 0, csv.QUOTE_NONE = 3); the column
+names interval_coverages_pileup reads; the comment character of parallel.to_chunks."""
 import ast
 
 
@@ -57,6 +61,93 @@ def _count_zero_depth(T):
     return _one(T, hits, 'depth = ... if end > start else <literal>')
 
 
+def _detect_columns(T):
+    """detect_bedcov_columns: the guard `tabcount < N`, the `if tabcount == N: return [names]` cases and the general
+    return `[head names] + fillers + [tail names]` with fillers = [f"_{i}" for i in range(A, tabcount - B)];
+    the characters whose occurrences are searched / counted in the first line."""
+    f = T.find_func('cnvlib/coverage.py', 'detect_bedcov_columns')
+    cases, general, fillers = [], [], []
+    for n in f.body:
+        if isinstance(n, ast.If) and isinstance(n.test, ast.Compare) and len(n.test.ops) == 1 \
+                and isinstance(n.test.ops[0], ast.Eq) and ast.unparse(n.test.left) == 'tabcount' \
+                and len(n.body) == 1 and isinstance(n.body[0], ast.Return) and not n.orelse:
+            cases.append([T.lit(n.test.comparators[0], 'tabcount =='), T.lit(n.body[0].value, 'column names')])
+        if isinstance(n, ast.Return):
+            v = n.value
+            if not (isinstance(v, ast.BinOp) and isinstance(v.op, ast.Add) and isinstance(v.left, ast.BinOp)
+                    and isinstance(v.left.op, ast.Add) and ast.unparse(v.left.right) == 'fillers'):
+                raise T.Refuse('c09: general return of detect_bedcov_columns is %s' % ast.unparse(v))
+            general.append((T.lit(v.left.left, 'head columns'), T.lit(v.right, 'tail columns')))
+        if isinstance(n, ast.Assign) and ast.unparse(n.targets[0]) == 'fillers':
+            c = n.value
+            ok = (isinstance(c, ast.ListComp) and len(c.generators) == 1 and not c.generators[0].ifs
+                  and isinstance(c.elt, ast.JoinedStr) and len(c.elt.values) == 2
+                  and isinstance(c.elt.values[0], ast.Constant) and isinstance(c.elt.values[1], ast.FormattedValue)
+                  and ast.unparse(c.elt.values[1].value) == ast.unparse(c.generators[0].target)
+                  and c.elt.values[1].conversion == -1 and c.elt.values[1].format_spec is None)
+            it = c.generators[0].iter if ok else None
+            ok = ok and isinstance(it, ast.Call) and ast.unparse(it.func) == 'range' and len(it.args) == 2 \
+                and isinstance(it.args[1], ast.BinOp) and isinstance(it.args[1].op, ast.Sub) \
+                and ast.unparse(it.args[1].left) == 'tabcount'
+            if not ok:
+                raise T.Refuse('c09: fillers of detect_bedcov_columns are %s' % ast.unparse(c))
+            fillers.append((c.elt.values[0].value, T.lit(it.args[0], 'range start'), T.lit(it.args[1].right, 'range stop offset')))
+    head, tail = _one(T, general, 'general return in detect_bedcov_columns')
+    prefix, frm, off = _one(T, fillers, 'fillers assignment in detect_bedcov_columns')
+    if not cases:
+        raise T.Refuse('c09: no `if tabcount == N: return [...]` in detect_bedcov_columns')
+    nl = [n for n in ast.walk(f) if isinstance(n, ast.Call) and ast.unparse(n.func) == 'text.index']
+    ct = [n for n in ast.walk(f) if isinstance(n, ast.Call) and ast.unparse(n.func) == 'firstline.count']
+    nlc = T.lit(_one(T, nl, 'text.index(...)').args[0], 'line end')
+    tbc = T.lit(_one(T, ct, 'firstline.count(...)').args[0], 'tab')
+    # firstline = text[:text.index("\n")] ; tabcount = firstline.count("\t")
+    T.body_contains('cnvlib/coverage.py', 'detect_bedcov_columns', 'firstline = text[:text.index(')
+    T.body_contains('cnvlib/coverage.py', 'detect_bedcov_columns', 'tabcount = firstline.count(')
+    if len(nlc) != 1 or len(tbc) != 1:
+        raise T.Refuse('c09: separators of detect_bedcov_columns are not single characters')
+    return cases, head, tail, prefix, frm, off, ord(nlc), ord(tbc)
+
+
+_QUOTING = {'QUOTE_MINIMAL': 0, 'QUOTE_ALL': 1, 'QUOTE_NONNUMERIC': 2, 'QUOTE_NONE': 3}
+
+
+def _read_csv(T):
+    """the pd.read_csv call of bedcov(): separator, names/usecols = columns, string dtypes, NA handling, quoting"""
+    f = T.find_func('cnvlib/coverage.py', 'bedcov')
+    calls = [n for n in ast.walk(f) if isinstance(n, ast.Call) and ast.unparse(n.func) == 'pd.read_csv']
+    c = _one(T, calls, 'pd.read_csv call in bedcov')
+    kw = {k.arg: k.value for k in c.keywords}
+    allowed = {'sep', 'names', 'usecols', 'dtype', 'keep_default_na', 'quoting'}
+    if set(kw) - allowed or not {'sep', 'names', 'usecols', 'dtype', 'keep_default_na'} <= set(kw):
+        raise T.Refuse('c09: read_csv keywords in bedcov are %s' % sorted(kw))
+    if ast.unparse(kw['names']) != 'columns' or ast.unparse(kw['usecols']) != 'columns':
+        raise T.Refuse('c09: read_csv names/usecols are not the detected columns')
+    if len(c.args) != 1 or ast.unparse(c.args[0]) != 'StringIO(raw)':
+        raise T.Refuse('c09: read_csv does not read StringIO(raw)')
+    sep = T.lit(kw['sep'], 'sep')
+    if not isinstance(sep, str) or len(sep) != 1:
+        raise T.Refuse('c09: read_csv separator %r' % (sep,))
+    dt = T.lit(kw['dtype'], 'dtype')
+    strcols = sorted(k for k, v in dt.items() if v == 'str')
+    if sorted(dt) != strcols:
+        raise T.Refuse('c09: read_csv dtype %r' % (dt,))
+    q = kw.get('quoting')
+    if q is None:
+        quoting = 0
+    elif isinstance(q, ast.Attribute) and q.attr in _QUOTING:
+        quoting = _QUOTING[q.attr]
+    else:
+        quoting = T.lit(q, 'quoting')
+    return ord(sep), strcols, T.lit(kw['keep_default_na'], 'keep_default_na'), quoting
+
+
+def _pileup_table_columns(T):
+    """interval_coverages_pileup reads table.start / table.end / table['basecount'] / 'gene'"""
+    for t in ('spans = table.end - table.start', "table.loc[ok_idx, 'basecount'] / spans[ok_idx]", "if 'gene' in table"):
+        T.body_contains('cnvlib/coverage.py', 'interval_coverages_pileup', t)
+    return ['chromosome', 'start', 'end', 'gene', 'basecount']
+
+
 def specs(T):
     C = 'cnvlib/coverage.py'
     P = 'cnvlib/parallel.py'
@@ -64,6 +155,11 @@ def specs(T):
     g2 = _bed_placeholder(T)
     if g1 != g2:
         raise T.Refuse('c09: the two algorithms use different placeholder gene names: %r vs %r' % (g1, g2))
+    cases, head, tail, prefix, frm, off, nlc, tbc = _detect_columns(T)
+    sepc, strcols, keep_na, quoting = _read_csv(T)
+    cn = _pileup_table_columns(T)
+    T.body_contains(P, 'to_chunks', 'if k % chunk_size == 0')
+    T.body_contains(P, 'to_chunks', 'if k % chunk_size:')
     return {'CoverageDefaults': [
         ('CHUNK_SIZE', 'Z', T.default(P, 'to_chunks', 'chunk_size')),
         ('COV_MIN_MAPQ_DEFAULT', 'Z', T.default(C, 'do_coverage', 'min_mapq')),
@@ -76,4 +172,24 @@ def specs(T):
         ('BEDCOV_MAPQ_OPTION_CUT', 'Z', T.compare_with(C, 'bedcov', 'min_mapq', 'Gt')),
         ('COUNT_LOG_BASE', 'Z', T.call_arg(C, 'region_depth_count', 'math.log', 1)),
         ('MISSING_GENE_NAME', 'string', g1),
+        # text layer of the pileup path
+        ('BEDCOV_MIN_TABS', 'Z', T.compare_with(C, 'detect_bedcov_columns', 'tabcount', 'Lt')),
+        ('BEDCOV_COLS_BY_TABS', 'list (Z * list string)', cases),
+        ('BEDCOV_COLS_HEAD', 'list string', head),
+        ('BEDCOV_COLS_TAIL', 'list string', tail),
+        ('BEDCOV_FILLER_PREFIX', 'string', prefix),
+        ('BEDCOV_FILLER_FROM', 'Z', frm),
+        ('BEDCOV_FILLER_STOP_MINUS', 'Z', off),
+        ('BEDCOV_LINE_END_CODE', 'Z', nlc),
+        ('BEDCOV_TAB_CODE', 'Z', tbc),
+        ('BEDCOV_SEP_CODE', 'Z', sepc),
+        ('BEDCOV_STR_COLUMNS', 'list string', strcols),
+        ('BEDCOV_KEEP_DEFAULT_NA', 'bool', keep_na),
+        ('BEDCOV_QUOTING', 'Z', quoting),
+        ('COL_CHROMOSOME', 'string', cn[0]),
+        ('COL_START', 'string', cn[1]),
+        ('COL_END', 'string', cn[2]),
+        ('COL_GENE', 'string', cn[3]),
+        ('COL_BASECOUNT', 'string', cn[4]),
+        ('CHUNK_COMMENT_PREFIX', 'string', T.compare_with(P, 'to_chunks', 'line[0]', 'Eq')),
     ]}
